@@ -155,6 +155,9 @@ pub fn check_huge(m: u32, mode: u8, stride: u32, offset: u32, target: usize, k: 
     if r.is_ok() && m >= 100_000 {
         stats.label("N>=100000");
     }
+    if r.is_ok() && u64::from(n) * u64::from(m) > u64::from(u32::MAX) {
+        stats.label("n*N>2^32");
+    }
     r
 }
 
@@ -450,7 +453,7 @@ impl Property for C06 {
         "C06"
     }
     fn rule(&self) -> String {
-        "Fixed two-level ontology loaded from own v3 bytes (root, 20 inner nodes, 420 leaves, every ninth leaf and one inner node flagged obsolete; 30 records per kind with the same ids in every kind, annotated to pseudo-random K-subsets of the leaves, K from 1 to 420 incl. 168..172). Generated per case: a background (subset of the terms, leaves only or with inner nodes/root so that K also arises by inheritance; sizes biased to 1..30, 160..182 and up to 441) and a sample drawn from it; k-sweep cases fix N, K, n and build a sample for every feasible k. A small share of the cases (about 2 %) uses a second fixture of real-HPO size: a flat ontology with 20 000 leaves and 10 records with K from 1 to 19 000; background = all terms / all leaves / every s-th leaf, sample = k linked + n-k unlinked terms (n up to 2500), exact tail by a multiplicative big-integer recurrence, tolerance 1e-8; deterministic sweeps in their own processes use freshly built flat ontologies of 100 000 - 250 000 leaves (tolerance 1e-7). All three enrichment functions. Oracle: result ids = records linked to >=1 sample term, each once; count = k; p-value vs P[X>=k] computed with exact big integers (Pascal triangle, one rounding), relative 1e-9; fold = (k/n)/(K/N) relative 1e-12; 0<=p<=1 and p non-increasing in k along a sweep, both exact. evaluations = (record, N, K, n, k) tuples. Non-trivial = 0<k<min(K,n) and K<N; distinct = distinct (N,K,n,k) tuples (plus distinct sweeps).".into()
+        "Fixed two-level ontology loaded from own v3 bytes (root, 20 inner nodes, 420 leaves, every ninth leaf and one inner node flagged obsolete; 30 records per kind with the same ids in every kind, annotated to pseudo-random K-subsets of the leaves, K from 1 to 420 incl. 168..172). Generated per case: a background (subset of the terms, leaves only or with inner nodes/root so that K also arises by inheritance; sizes biased to 1..30, 160..182 and up to 441) and a sample drawn from it; k-sweep cases fix N, K, n and build a sample for every feasible k. A small share of the cases (about 2 %) uses a second fixture of real-HPO size: a flat ontology with 20 000 leaves and 10 records with K from 1 to 19 000; background = all terms / all leaves / every s-th leaf, sample = k linked + n-k unlinked terms (n up to 2500), exact tail by a multiplicative big-integer recurrence, tolerance 1e-8; deterministic sweeps in their own processes use freshly built flat ontologies of 100 000 - 250 000 leaves and one of 10^6 leaves with a sample of 5 000 and a record on 95 % of the population, so that the products n*K and k*N exceed 2^32 (tolerance 1e-7). All three enrichment functions. Oracle: result ids = records linked to >=1 sample term, each once; count = k; p-value vs P[X>=k] computed with exact big integers (Pascal triangle, one rounding), relative 1e-9; fold = (k/n)/(K/N) relative 1e-12; 0<=p<=1 and p non-increasing in k along a sweep, both exact. evaluations = (record, N, K, n, k) tuples. Non-trivial = 0<k<min(K,n) and K<N; distinct = distinct (N,K,n,k) tuples (plus distinct sweeps).".into()
     }
     fn assumptions(&self) -> Vec<String> {
         vec![
@@ -466,7 +469,7 @@ impl Property for C06 {
         }
     }
     fn required_labels(&self, _tier: Tier) -> Vec<&'static str> {
-        vec!["nontrivial", "N<=170", "N>170", "N~20000", "large:p<1e-12", "large:k-far-below-mean", "k-sweep>=3", "background-with-inner-nodes", "empty-sample", "N>=100000"]
+        vec!["nontrivial", "N<=170", "N>170", "N~20000", "large:p<1e-12", "large:k-far-below-mean", "k-sweep>=3", "background-with-inner-nodes", "empty-sample", "N>=100000", "n*N>2^32"]
     }
     fn run_generated(&self, _tier: Tier, seed: u64, n: u64, stats: &mut Stats) -> Option<(Value, Failure)> {
         run_typed(strategy(), seed, n, stats, check)
@@ -483,7 +486,9 @@ impl Property for C06 {
     fn isolated_plans(&self, tier: Tier, seed: u64) -> Vec<Value> {
         // populations of 10^5 and more (one freshly built flat ontology per plan)
         let rot = (seed % 1000) as u32;
-        let mut plans: Vec<(u32, u8, u32, u32, usize, u32, u32, u32)> = vec![(100_000, 1, 2, 0, 1, 2, 5, rot), (131_072, 0, 2, 0, 3, 12, 400, rot)];
+        let mut plans: Vec<(u32, u8, u32, u32, usize, u32, u32, u32)> = vec![(100_000, 1, 2, 0, 1, 2, 5, rot), (131_072, 0, 2, 0, 3, 12, 400, rot),
+            // a million leaves, a sample of 5 000 and a record on 95 % of the population: the products n*K and k*N exceed 2^32
+            (1_000_000, 1, 2, 0, 7, 4_750, 5_000, rot)];
         if tier == Tier::Thorough {
             plans.push((100_500, 1, 2, 0, 2, 1, 60, rot));
             plans.push((250_000, 2, 3, 1, 4, 30, 1500, rot));
